@@ -79,6 +79,8 @@ def one_case(rng, tier, classes, cflags, force=None):
         steps = M.mutate_dest(rng, steps)
     style = M.choose_style(rng, steps, sroot)
     sp = M.spell(rng, steps, style)
+    if scope is None:
+        cflags = [f for f in cflags if f[0] != 'Scope']
     return {'classes': classes, 'cflags': cflags, 'heap': heap, 'target': root, 'scope': scope,
             'root': 'S' if sroot else 'T', 'spelling': sp, 'style': style,
             'value': gen_value(rng, heap, root), 'missing': missing,
@@ -115,7 +117,8 @@ def exhaustive(classes, cflags):
                             sp = {'text': '.'.join(segs)}
                         else:
                             sp = {'parts': [{'t': [['[', {'s': s}] for s in segs]}]}
-                        yield {'classes': classes, 'cflags': cflags, 'heap': heap, 'target': root,
+                        yield {'classes': classes, 'cflags': [f for f in cflags if f[0] != 'Scope'],
+                               'heap': heap, 'target': root,
                                'scope': None, 'root': 'T', 'spelling': sp, 'style': style,
                                'value': {'lit': {'i': 42}}, 'missing': missing, 'api': 'assign'}
 
